@@ -68,8 +68,6 @@ def _reloaded_twin(run, pending):
     if how.startswith('fresh context'):
         # names such that a multi-character name is the concatenation of other names of the same kind ('a', 'b', 'ab', ...):
         # a str is an iterable of its characters, nothing may confuse the two readings
-        import itertools
-        from core import PyCtx
 
         def names(alphabet, k):
             out = []
